@@ -29,7 +29,10 @@ MANIFEST = {
             "custom_properties loophole (never, with the parse guard); a run that returns a custom-free object does not depend "
             "on the allow_custom switch (repaired reference inversion); flag_iff_strict_reparse_partial: an allow-mode run "
             "returns flag false exactly when the strict run on the object's own encoding succeeds (constructor level, the "
-            "classes of the regenerated tables that pass closed_ok: 116 of 123, plain JSON input); refuted-variant witnesses on "
+            "classes of the regenerated tables that pass closed_ok: 116 of 123, plain JSON input); strict_custom_free_partial: "
+            "the object a strict constructor returns is custom-free at every depth in the typed sense of Spec/CustomFree.v "
+            "(members are class properties, hash names from the vocabulary, references to registered non-x- types, nested "
+            "objects custom-free in turn), and in either mode an unflagged object is; refuted-variant witnesses on "
             "the generated tables. Model tied to /repo by regenerated class tables and a correspondence run (flag + strict "
             "reparse outcome); the property itself is evaluated on the real library with custom content injected at every "
             "nesting site of generated objects of every class.",
